@@ -208,11 +208,16 @@ type remoteDelivery struct {
 	connections map[string]*mxConn
 
 	policies []module.DeliveryMXAuthPolicy
+	// Set if security policies are not applied due to TLS-Required: No.
+	// Connections established for such delivery should not be reused for
+	// other messages.
+	secOverride bool
 }
 
 func (rt *Target) Start(ctx context.Context, msgMeta *module.MsgMetadata, mailFrom string) (module.Delivery, error) {
 	policies := make([]module.DeliveryMXAuthPolicy, 0, len(rt.policies))
-	if !(msgMeta.TLSRequireOverride && rt.allowSecOverride) {
+	secOverride := msgMeta.TLSRequireOverride && rt.allowSecOverride
+	if !secOverride {
 		for _, p := range rt.policies {
 			policies = append(policies, p.Start(msgMeta))
 		}
@@ -267,6 +272,7 @@ func (rt *Target) Start(ctx context.Context, msgMeta *module.MsgMetadata, mailFr
 		Log:         target.DeliveryLogger(rt.Log, msgMeta),
 		connections: map[string]*mxConn{},
 		policies:    policies,
+		secOverride: secOverride,
 	}, nil
 }
 
@@ -446,9 +452,9 @@ func (rd *remoteDelivery) Close() error {
 		rd.rt.limits.ReleaseDest(conn.domain)
 		conn.transactions++
 
-		if !conn.Usable() {
-			rd.Log.Debugf("disconnected %v from %s (errored=%v,transactions=%v,disconnected before=%v)",
-				conn.LocalAddr(), conn.ServerName(), conn.errored, conn.transactions, conn.C.Client() == nil)
+		if !conn.Usable() || rd.secOverride {
+			rd.Log.Debugf("disconnected %v from %s (errored=%v,transactions=%v,disconnected before=%v,policy override=%v)",
+				conn.LocalAddr(), conn.ServerName(), conn.errored, conn.transactions, conn.C.Client() == nil, rd.secOverride)
 			conn.Close()
 		} else {
 			rd.Log.Debugf("returning connection %v for %s to pool", conn.LocalAddr(), conn.ServerName())
